@@ -38,7 +38,7 @@ SCHEMA = {
     "StateInline": {
         "src": "str", "md": "obj:MarkdownIt", "env": "opaque", "tokens": "tokseq", "tokens_meta": "opaque",
         "pos": "int", "posMax": "int", "level": "int", "pending": "str", "pendingLevel": "int",
-        "cache": "map", "delimiters": "opaque", "_prev_delimiters": "opaque", "backticks": "map",
+        "cache": "intmap", "delimiters": "opaque", "_prev_delimiters": "opaque", "backticks": "intmap",
         "backticksScanned": "bool", "linkLevel": "int",
     },
     "StateCore": {"src": "str", "md": "obj:MarkdownIt", "env": "opaque", "tokens": "opaque", "inlineMode": "bool"},
